@@ -224,8 +224,11 @@ impl Check for C09 {
         coms.truncate(2 + rng.usize(5));
         let day_span = *rng.pick(&[1u64, 3, 10, 20]);
         let n_events = rng.usize(10);
-        let world = price_world(rng, &coms, n_events, day_span);
-        let n_db = if rng.chance(1, 2) { 1 + rng.usize(6) } else { 0 };
+        // in a third of the worlds the last one or two commodities exist in the price DB only: the
+        // ledger never mentions them, a chain may still pass through them
+        let db_only = if coms.len() >= 4 && rng.chance(1, 3) { 1 + rng.usize(2) } else { 0 };
+        let world = price_world(rng, &coms[..coms.len() - db_only], n_events, day_span);
+        let n_db = if rng.chance(1, 2) || db_only > 0 { 1 + rng.usize(6) + 2 * db_only } else { 0 };
         let db = gen_db(rng, &coms, n_db, day_span);
         // query dates: around the price dates, far before, far after
         let mut dates: Vec<Date> = Vec::new();
@@ -417,6 +420,13 @@ impl Check for C09 {
                     if model::amt_nonzero(a) != model::amt_nonzero(&model::amt_single(&q.from, qty)) {
                         out.violate("C09/rate-not-admissible", "identity", format!("{}: got {}", desc, fmt_amt(a)));
                     }
+                }
+                (RateAnswer::Identity, Err(_))
+                    if !prices.iter().any(|p| p.of == q.from || p.with == q.from)
+                        && !sc.world.files.iter().any(|f| f.render().0.contains(q.from.as_str())) =>
+                {
+                    // neither the ledger nor any price line that was read mentions the commodity
+                    out.count("dc.identity asked of a commodity nothing mentions");
                 }
                 (RateAnswer::Identity, Err(e)) => {
                     judged += 1;
